@@ -25,11 +25,11 @@ MIN_HITS = {
     'quick': {'mon:oracle': 300, 'mon:diag': 300, 'mon:sanitize': 300, 'variant:jit': 60, 'variant:perm': 60,
               'variant:debug': 40, 'variant:pmap': 40, 'mon:empty': 5, 'mon:ownkey': 10, 'empty-client': 20,
               'empty-round-after-nonempty-round:stateful-server': 4, 'x64-round': 40, 'mon:x64': 100, 'mon:optwrap': 200,
-              'copt=nesterov': 8, 'sopt=nesterov': 8},
+              'copt=nesterov': 8, 'sopt=nesterov': 8, 'many-epochs-exact-multiple': 3},
     'thorough': {'mon:oracle': 6000, 'mon:diag': 6000, 'mon:sanitize': 6000, 'variant:jit': 1000, 'variant:perm': 1000,
                  'variant:debug': 600, 'variant:pmap': 600, 'mon:empty': 100, 'mon:ownkey': 100, 'empty-client': 400,
                  'empty-round-after-nonempty-round:stateful-server': 80, 'x64-round': 700, 'mon:x64': 2000, 'mon:optwrap': 3000,
-                 'copt=nesterov': 150, 'sopt=nesterov': 150},
+                 'copt=nesterov': 150, 'sopt=nesterov': 150, 'many-epochs-exact-multiple': 80},
 }
 TECHNIQUE = 'runtime monitoring: float64 reference-model oracle + backend/permutation differential + input-state sanitizer over seeded multi-round histories'
 LEVEL_TEXT = ('Every round of every generated history is executed by the real federated_averaging on three backends and judged '
@@ -91,6 +91,15 @@ def gen_history(rng, quick):
     rounds = len(cohorts)
     if sspec[0] == 'sgd' and rng.rand() < 0.7:
       sspec = [('momentum', slr, 0.9), ('adam', 0.05)][rng.randint(2)]
+  if rng.rand() < 0.06:
+    # forced class "many epochs": N*E an exact multiple of B although B does not divide N (29*7/7, 15*11/11, 58*7/14), where a
+    # step count computed in floating point is one off; small learning rates keep the long client runs well conditioned
+    b_, e_, ns_ = [(7, 7, (29, 58, 15)), (11, 11, (15, 30, 29)), (14, 7, (58, 29, 30))][rng.randint(3)]
+    sizes = [int(ns_[i % 3]) for i in range(max(2, min(n_clients, 4)))]
+    hp.update(batch_size=b_, num_epochs=e_, num_steps=None, drop_remainder=bool(rng.rand() < 0.5))
+    cspec, sspec = ('sgd', 0.02), [('sgd', 1.0), ('momentum', 0.5, 0.9)][rng.randint(2)]
+    rounds = 2
+    cohorts = [list(range(len(sizes))), list(range(len(sizes)))[::-1][:max(1, len(sizes) - 1)]]
   return dict(dim=dim, kind=kind, sizes=sizes, cspec=cspec, sspec=sspec, hp=hp, rounds=rounds, cohorts=cohorts,
               nd=int(rng.randint(1, 9)), init_seed=int(rng.randint(0, 2**31 - 1)))
 
@@ -255,6 +264,8 @@ def run_history(ctx, fedjax, jax, jnp, h, rng, x64=False):
     for cid in cohort_ids:
       pass
   klass = [f"copt={h['cspec'][0]}", f"sopt={h['sspec'][0]}"]
+  if (h['hp'].get('num_epochs') or 0) >= 7:
+    klass.append('many-epochs-exact-multiple')
   if all(s == 0 for s in h['sizes']):
     klass.append('all-empty-population')
   if any(len(c) == 0 for c in h['cohorts']):
